@@ -434,7 +434,7 @@ def check_property(prop, tier='quick', seed=0, only=None):
                 res.violations.append(dict(kind='obligation', obligation=rec.full, line=rec.line, model=None, replay=rep,
                                            solver=[dict(reason=why)]))
             elif second_opinion(rec):
-                pass            # discharged after all, with four times the budgets (busy machine, or a harmless edit made the query slower)
+                pass            # discharged after all, with twice the budgets (busy machine, or a harmless edit made the query slower)
             elif lost_by_code_change(res, rec.full, it, None):
                 res.violations.append(dict(kind='obligation', obligation=rec.full, line=rec.line, model=None,
                                            replay=dict(confirmed=False, note='obligation was discharged on the baseline tree; the '
@@ -544,11 +544,11 @@ def merge_bounded(runs, seeds):
 
 
 def second_opinion(rec):
-    """re-solve the undecided queries of one obligation with four times the budgets; True iff all of them are then discharged (the obligation
+    """re-solve the undecided queries of one obligation (at most 8) with twice the budgets; True iff all of them are then discharged (the obligation
     counts as discharged), False otherwise (refuted or still undecided)"""
     from .solve import solve_long
     pending = [(r['key'], rec.queries[r['key'][1]][0]) for r in rec.results if r['status'] == 'unknown']
-    if not pending or len(pending) > 24:
+    if not pending or len(pending) > 8:
         return False
     import multiprocessing
     ctx = multiprocessing.get_context('fork')
@@ -557,7 +557,7 @@ def second_opinion(rec):
     ok = all(o['status'] == 'unsat' for o in outs)
     if ok:
         rec.status = 'discharged'
-        log('  second opinion (4x budgets): %s discharged' % rec.full)
+        log('  second opinion (2x budgets): %s discharged' % rec.full)
     return ok
 
 
